@@ -272,3 +272,13 @@ def run(ctx):
     r_clear(ctx)
     r_build_ro(ctx)
     r_meta_items(ctx)
+    # "counts and the id set reported by a reader agree": every successful build (re)publishes the metadata
+    be = C06.build_entry(ctx.F)
+    if be is not None:
+        ctx.check(C06.always_passes(ctx.F, be, C06.is_metadata_put(ctx.F)), 'R-PUBLISH', '%s/metadata' % be.path, be.loc(),
+                  'every success path of the build writes the metadata (item ids, roots, metric)',
+                  'a success path of `%s` returns without rewriting the metadata: the reader\'s item ids / counts can disagree with the item store' % be.path)
+    # quantised metrics: "the sign pattern of what was written, at the declared dimension": C12's codec clauses
+    from props import C12
+    C12.r_pack_bits(ctx)
+    C12.r_iter(ctx)
